@@ -638,18 +638,28 @@ impl IoLoop {
 
         let mut events = Events::with_capacity(128);
         let mut listening_to_channels = true;
+        // The connection timeout is about the peer staying silent: only something arriving
+        // on the socket pushes it back, not our own timers (or writes) waking us up.
+        let mut last_stream_event = Instant::now();
         loop {
-            let start_poll = Instant::now();
+            let poll_timeout = match &self.connection_timeout {
+                Some(timeout) => match timeout.checked_sub(last_stream_event.elapsed()) {
+                    Some(left) => Some(left),
+                    None => return ConnectionTimeoutSnafu.fail(),
+                },
+                None => None,
+            };
             self.poll
-                .poll(&mut events, self.connection_timeout)
+                .poll(&mut events, poll_timeout)
                 .context(FailedToPollSnafu)?;
             if events.is_empty() {
-                if let Some(timeout) = &self.connection_timeout {
-                    if start_poll.elapsed() > *timeout {
-                        return ConnectionTimeoutSnafu.fail();
-                    }
-                }
                 continue;
+            }
+            if events
+                .iter()
+                .any(|ev| ev.token() == STREAM && ev.readiness().is_readable())
+            {
+                last_stream_event = Instant::now();
             }
 
             let had_data_to_write = self.inner.has_data_to_write();
